@@ -663,9 +663,9 @@ def table_units(U, thorough):
            "#define VP_PUSH_INV(x) do { __CPROVER_assert(inverse__n < INV_CAP, \"R7: push_back within capacity\"); inverse_[inverse__n++] = (x); } while (0)\n"
            "unsigned int g_k;\n")
     cases = [("zp_ops.set_characteristic", OPS, r"void set_characteristic\(Characteristic characteristic\)", "set_characteristic", "characteristic", "characteristic_",
-              "unsigned int", [(r"inverse_\.resize\(characteristic\);", "VP_RESIZE(characteristic);")], "unsigned int characteristic_; unsigned int inverse_[INV_CAP];\n", None),
+              "unsigned int", [(r"inverse_\.resize\(([^;]*)\);", r"VP_RESIZE(\1);")], "unsigned int characteristic_; unsigned int inverse_[INV_CAP];\n", None),
              ("zp_sh.initialize", F + "Zp_field_shared.h", r"static void initialize\(Characteristic characteristic\)", "initialize", "characteristic", "characteristic_",
-              "unsigned int", [(r"inverse_\.resize\(characteristic\);", "VP_RESIZE(characteristic);")], "unsigned int characteristic_; unsigned int inverse_[INV_CAP];\n", None),
+              "unsigned int", [(r"inverse_\.resize\(([^;]*)\);", r"VP_RESIZE(\1);")], "unsigned int characteristic_; unsigned int inverse_[INV_CAP];\n", None),
              ("field_zp.init", PC + "Field_Zp.h", r"void init\(int charac\)", "init", "charac", "Prime",
               "int", [(r"inverse_\.clear\(\);", "inverse__n = 0;", 0), (r"inverse_\.reserve\(charac\);", "", 0), (r"inverse_\.push_back\(", "VP_PUSH_INV(", 1)],
               "int Prime; int inverse_[INV_CAP];\n", 46337)]
